@@ -19,6 +19,8 @@ type composer struct {
 	readAll    bool // read every member with validating readers (no skipping)
 	validating bool // may skip, but only in validating ways: SkipValue (nil or shared buffer), return 0, nested handlers
 	buf        *rjson.Buffer
+	skipBuf    *rjson.Buffer // a long-lived Buffer used only for skipping, kept across documents (it has seen hostile ones)
+	keyBuf     *[]byte       // a long-lived scratch for field names, the `buf, _, err = Unescape(name, buf[:0])` idiom
 	strBuf     []byte
 	used       map[string]int
 	maxDepth   int
@@ -49,7 +51,11 @@ func (cp *composer) value(data []byte, depth int, inHandler bool) (val interface
 		switch choice {
 		case 0:
 			cp.use("SkipValue")
-			pp, e := rjson.SkipValue(rest, cp.buf)
+			b := cp.buf
+			if cp.skipBuf != nil && cp.r.Intn(2) == 0 {
+				b = cp.skipBuf
+			}
+			pp, e := rjson.SkipValue(rest, b)
 			return skipped{}, p0 + pp, e
 		case 1:
 			cp.use("SkipValueFast")
@@ -175,7 +181,14 @@ func (cp *composer) value(data []byte, depth int, inHandler bool) (val interface
 			buf = cp.buf
 		}
 		pp, e := rjson.HandleObjectValues(rest, rjson.ObjectValueHandlerFunc(func(k, d []byte) (int, error) {
-			key, _, ke := rjson.UnescapeStringContent(k, nil)
+			var key []byte
+			var ke error
+			if cp.keyBuf != nil {
+				*cp.keyBuf, _, ke = rjson.UnescapeStringContent(k, (*cp.keyBuf)[:0])
+				key = *cp.keyBuf
+			} else {
+				key, _, ke = rjson.UnescapeStringContent(k, nil)
+			}
 			if ke != nil {
 				return 0, ke
 			}
@@ -194,12 +207,25 @@ func (cp *composer) value(data []byte, depth int, inHandler bool) (val interface
 
 // C08: offsets compose.
 func RunC08(c *Ctx) {
+	// long-lived decoder state, as a service that decodes many documents keeps it: a Buffer used only
+	// for skipping, which has also been handed hostile documents (seeded change C08r6-m1: depth
+	// measured by the length of the reused stack), and one scratch for field names (seeded change
+	// C08r6-m2: UnescapeStringContent returning its input, so that the scratch ends up pointing
+	// into an earlier document)
+	var skipLong rjson.Buffer
+	var keyLong []byte
+	overDeep := workload.BuildNest([]int{0, 2}, 10001, "0", 10001)
 	c.RunDocs([]string{"W3", "W1", "W4", "W2small", "W2T", "W1R"}, func(cs *h.Case) {
 		if cs.Deep {
 			c.Rec.C("skipped_nesting_beyond_10000")
 			return
 		}
 		d := cs.Input
+		if c.Rec.R.Cases%2048 == 1 {
+			rjson.SkipValue(overDeep, &skipLong)
+			rjson.SkipValue(overDeep[:len(overDeep)/3], &skipLong)
+			c.Rec.C("hostile_documents_shown_to_the_long_lived_skip_buffer")
+		}
 		model := c.Parse(cs)
 		var want interface{}
 		var wp int
@@ -227,6 +253,9 @@ func RunC08(c *Ctx) {
 			cp := &composer{r: workload.NewRand(c.Seed, h.Hash(d)+uint64(prog)*977), readAll: prog < 2, validating: prog >= 2 && prog%2 == 0, buf: &buf, used: map[string]int{}}
 			if prog%2 == 1 {
 				cp.buf = nil
+			}
+			if prog != 1 {
+				cp.skipBuf, cp.keyBuf = &skipLong, &keyLong
 			}
 			var got interface{}
 			var gp int
